@@ -29,7 +29,7 @@ func init() {
 		Rule: "RateLimitedIssuer.Evaluate(bytes) on requests built two ways: by pat-go's client, and entirely by the harness (own encoder, own HPKE sealing with the AAD of the draft, own key-blinded signer over crypto/ecdsa). Honest requests for a registered origin must be served and the response must finalize to a token valid under rsa.VerifyPSS. " +
 			"Must be rejected with an error and a nil response: every single-bit flip of an accepted encoding (exhaustive), every truncation, a trailing byte, a missing signature, unregistered origins (near misses of the registered names), requests sealed to another issuer's name key (key id kept and replaced), requests re-signed by an unrelated key, request key replaced and correctly re-signed (only the AAD binding catches it), AAD variants that drop or alter one component, inner requests truncated before encryption (with the empty origin registered). " +
 			"Differential part: on an issuer whose name key is derived from a seed known to the harness (verif-tagged hook) the harness decides every generated input itself (own parser, own HPKE open through go-hpke, own unpadding, origin lookup, crypto/ecdsa) - multi-bit and byte mutations, field splices between honest requests with and without re-signing, replaced-and-re-signed name key ids, (r, N-s), padded-origin and inner-request variants, foreign name keys, altered AADs - and Evaluate must agree. distinct_nontrivial = distinct (request, tampering class, position) and (class, reference reason) keys",
-		Floors:      []string{"served_pat_go_client", "served_harness_built", "response_finalized_valid", "bitflips_rejected", "truncations_rejected", "unregistered_origin_rejected", "foreign_name_key_rejected", "resigned_rejected", "aad_binding_rejected", "inner_truncated_rejected", "failed_registration_origin_rejected", "differential_agree_accept", "differential_agree_reject", "differential_reject_signature", "differential_reject_hpke-open", "differential_reject_unregistered-origin", "differential_reject_outer-parse"},
+		Floors:      []string{"served_pat_go_client", "served_harness_built", "response_finalized_valid", "bitflips_rejected", "truncations_rejected", "unregistered_origin_rejected", "foreign_name_key_rejected", "resigned_rejected", "aad_binding_rejected", "inner_truncated_rejected", "failed_registration_origin_rejected", "served_after_many_late_refusals", "differential_agree_accept", "differential_agree_reject", "differential_reject_signature", "differential_reject_hpke-open", "differential_reject_unregistered-origin", "differential_reject_outer-parse"},
 		Assumptions: []string{"enumerated part: acceptance is fixed by construction of each case; differential part: the issuer's name key comes from a known seed through the verif hook", "an inner request with trailing bytes after the padded origin is only counted (no rule in the statement)"},
 		Run:         runC07,
 	})
@@ -284,6 +284,28 @@ func runC07(c *core.Ctx) {
 		wf.mustServe(wf.build(r, c07Opts{origin: "before.example"}), "registered-before-a-failed-registration")
 		wf.mustServe(wf.build(r, c07Opts{origin: "after.example"}), "registered-after-a-failed-registration")
 		c.Distinctf("failed-registration:%d", okBytes)
+	}
+
+	// several hundred authentic-looking requests that are refused late (the blinded message is not below the modulus,
+	// so everything up to the signing step succeeds), one after the other on one issuer; then an honest one is served
+	if c.Next() {
+		r := c.CaseRng()
+		iss := type3.NewRateLimitedIssuer(w.key)
+		iss.AddOrigin("origin.example")
+		nkX, err := parseNameKey(iss.NameKey().Marshal())
+		must(err)
+		wx := &c07World{c: c, key: w.key, issuer: iss, other: w.other, nk: nkX, nkO: w.nkO, keyID: iss.TokenKeyID()}
+		base := wx.build(r, c07Opts{origin: "origin.example"})
+		big1 := clone(base.innerEnc)
+		for j := 1; j <= 256; j++ {
+			big1[j] = 0xff
+		}
+		for k := 0; k < 300; k++ {
+			wx.mustReject(wx.build(r, c07Opts{origin: "origin.example", innerPlain: big1}).enc, "late-refusal-in-a-row", "")
+		}
+		if wx.mustServe(wx.build(r, c07Opts{origin: "origin.example"}), "served-after-300-late-refusals") {
+			c.Class("served_after_many_late_refusals")
+		}
 	}
 
 	nHonest := c.Pick(6, 60)
